@@ -12,7 +12,7 @@ import (
 func init() {
 	register(&Check{
 		ID: "C03", Level: "exploration", QuickSecs: 170, ThoroughSecs: 1500,
-		Rule:        "AST side: all reference ASTs over every expression kind (literal, i-literal, class with range/escape/Unicode class/^/i, any, rule reference, & ! ? * +, label, action, &{} !{} #{}, throw, recovery with 1-2 labels, nested sequences and choices) up to N nodes per rule (quick 4, thorough 5), second rule with display name. Spelling side: 15 independent dimensions (4 definition operators; 13 rule separators incl. ';' on the same or a later line, comments, CRLF, EOF; 12 token separators incl. newline and comments of several shapes (/***/, /* x **/, /**/, //); leading blanks/comments; 3 literal quotings; 4 escape forms in literals and in classes; operator spacing; full parenthesisation; 8 code block bodies with nested braces, braces in string/raw string/rune literals and comments; with/without initializer). Chains: 2 and 3 recovery clauses on one expression, actions and throws inside them, a recovery inside a choice, labels on prefixed and suffixed primaries (all deviations). Lexical families: EVERY code block body of <= 3 (thorough 4) items from 28 atoms (strings, raw strings, rune literals and comments holding braces, quotes, backslashes and comment openers; identifiers, blanks, newlines) and nested groups; EVERY literal of <= 2 (3) pieces over plain runes and all escape forms in the three quotings, with and without i; EVERY class text of <= 3 (4) pieces over plain runes, - ^, escapes (incl. escaped hyphen and caret) and Unicode classes, denotation = the grammar's own tokenisation. Deviation bounded: canonical spelling for all ASTs, every single deviation for ASTs up to N-1 nodes, every pair for ASTs up to 2 nodes. Oracle: the AST dump of the real front-end (kinds, values, flags, class contents, labels, code text, AND line:col:offset of every node = position of its first token) must equal the AST the text was printed from; printing the parsed AST canonically and re-parsing yields the same AST. Non-trivial = a case with at least one spelling deviation or at least 3 nodes.",
+		Rule:        "AST side: all reference ASTs over every expression kind (literal, i-literal, class with range/escape/Unicode class/^/i, any, rule reference, & ! ? * +, label, action, &{} !{} #{}, throw, recovery with 1-2 labels, nested sequences and choices) up to N nodes per rule (quick 4, thorough 5), second rule with display name. Spelling side: 15 independent dimensions (4 definition operators; 13 rule separators incl. ';' on the same or a later line, comments, CRLF, EOF; 12 token separators incl. newline and comments of several shapes (/***/, /* x **/, /**/, //); leading blanks/comments; 8 separators between rule name, display name, definition operator and expression incl. none, newlines and comments; 3 literal quotings; 4 escape forms in literals and in classes; operator spacing; full parenthesisation; 8 code block bodies with nested braces, braces in string/raw string/rune literals and comments; with/without initializer). Chains: 2 and 3 recovery clauses on one expression, actions and throws inside them, a recovery inside a choice, labels on prefixed and suffixed primaries (all deviations). Lexical families: EVERY code block body of <= 3 (thorough 4) items from 28 atoms (strings, raw strings, rune literals and comments holding braces, quotes, backslashes and comment openers; identifiers, blanks, newlines) and nested groups; EVERY literal of <= 2 (3) pieces over plain runes and all escape forms in the three quotings, with and without i; EVERY class text of <= 3 (4) pieces over plain runes, - ^, escapes (incl. escaped hyphen and caret) and Unicode classes, denotation = the grammar's own tokenisation. Deviation bounded: canonical spelling for all ASTs, every single deviation for ASTs up to N-1 nodes, every pair for ASTs up to 2 nodes. Oracle: the AST dump of the real front-end (kinds, values, flags, class contents, labels, code text, AND line:col:offset of every node = position of its first token) must equal the AST the text was printed from; printing the parsed AST canonically and re-parsing yields the same AST. Non-trivial = a case with at least one spelling deviation or at least 3 nodes.",
 		Assumptions: []string{"hook ast mode = ParseReader of the working tree", "position convention of C02 (line counts newlines, col counts runes since the last newline)"},
 		Run:         runC03,
 	})
@@ -164,6 +164,21 @@ func deviations() []deviation {
 	for _, sp := range []string{" ", "\n", " /* c */ "} {
 		sp := sp
 		d = append(d, deviation{fmt.Sprintf("opspace %q", sp), func(o *peg.PrintOpts) { o.OpSpace = sp }})
+	}
+	// after the initializer block
+	for _, sp := range []string{";\n", " ;\n\n", "\n;\n", ";", "\n", " // c\n", " ; // c\n"} {
+		sp := sp
+		d = append(d, deviation{fmt.Sprintf("initsep %q", sp), func(o *peg.PrintOpts) { o.InitSep = sp }})
+	}
+	// between rule name, display name, definition operator and expression
+	for _, sp := range []string{"", "  ", "\t", "\n", " /* c */ ", " // c\n", "/**/", "\n\n// c\n\t"} {
+		sp := sp
+		d = append(d, deviation{fmt.Sprintf("headspace %q", sp), func(o *peg.PrintOpts) {
+			o.HeadSpace = sp
+			if sp == "" {
+				o.HeadSpace = "\x00" // marker: no separator at all
+			}
+		}})
 	}
 	for _, ld := range []string{"\n\n", "  ", "// c\n", "/* c */", "\t\r\n"} {
 		ld := ld
